@@ -73,7 +73,7 @@ def run(ctx):
     ctx.log('driver built')
     mc = vlib.tlc_must_pass(ctx, os.path.join(H.SPEC, 'MC_StatusLine.tla'),
                             os.path.join(H.SPEC, 'MC_StatusLine_thorough.cfg' if ctx.thorough else 'MC_StatusLine.cfg'),
-                            workers=8, timeout=1500, label='mc-statusline')
+                            workers=vlib.NCPU, timeout=1500, label='mc-statusline')
     ctx.log('MC_StatusLine: %d states (prefix law and grammar laws of the specification)' % mc.distinct)
     cs, parts = gen(ctx)
     ctx.log('%d cases' % len(cs))
